@@ -68,3 +68,15 @@ package layout
 //@   ensures conserved: lsum(res, len(res)) == wsum(fragments, len(fragments))
 //@   loop 0:
 //@     invariant lsum(lines, len(lines)) + wsum(currentLine, len(currentLine)) == wsum(sorted, $i)
+
+//@ spec rec prefix func linesum(ls []Line, n int) int = n <= 0 ? 0 : linesum(ls, n - 1) + wsum(ls[n-1].Fragments, len(ls[n-1].Fragments))
+
+// every fragment of every group ends up in exactly one Line
+//@ func (*LineDetector) buildLines results (res)
+//@   property C09
+//@   flags readonly, nosafety
+//@   ensures conserved: linesum(res, len(res)) == lsum(lineGroups, len(lineGroups))
+//@   loop 0:
+//@     invariant linesum(lines, len(lines)) == lsum(lineGroups, $i)
+//@   loop 4:
+//@     invariant linesum(lines, len(lines)) == entry(linesum(lines, len(lines))) && len(lines) == entry(len(lines))
